@@ -17,11 +17,15 @@ func runC07(c *Check, tier string) {
 	c.Decides = "a file can appear under a final cache key only by os.Rename of a file obtained from os.CreateTemp in the same directory, after the content copy and Close returned nil, and the final path is never opened for writing; only the fs backend (plus the locker, `clean` and the per-target logs) creates or renames files under the grog root; the result is written after its blobs (R01d); the digest and the bytes handed to a CAS write come from the same path / byte slice; the 'exists' memo is set only after a successful write or a positive backend answer; no first-party reader manufactures io.EOF."
 	c.NotDec = "interleavings with a concurrent process, fsync/power loss, TOCTOU between hashing and uploading a file that is still changing, remote-side atomicity."
 	ruleR07a(c)
-	ruleR07b(c)
+	ruleR07b(c, "R07b")
 	ruleR01d(c, "R07c")
 	ruleR07d(c)
-	ruleR07e(c)
+	ruleR07e(c, "R07e")
 	ruleR07f(c, "R07f")
+	// a blob fetched from the remote tier enters the local cache only whole (read-through fills)
+	if w := findWrapper(c, "R07g"); w != nil {
+		ruleR08b(c, w, "R07g")
+	}
 }
 
 func fsCacheMethods(c *Check) []*ssa.Function {
@@ -239,8 +243,8 @@ func openFileWrites(s ssa.CallInstruction) bool {
 }
 
 // R07b: single owner of the grog root
-func ruleR07b(c *Check) {
-	c.Rule("R07b", "file creations/renames/removals whose path derives from the grog root or the workspace cache directory occur only in the fs backend, the workspace locker, the clean command and the per-target log files", 5)
+func ruleR07b(c *Check, rule string) {
+	c.Rule(rule, "file creations/renames/removals whose path derives from the grog root or the workspace cache directory occur only in the fs backend, the workspace locker, the clean command and the per-target log files", 5)
 	var srcs []Node
 	for _, n := range []string{"GetWorkspaceCacheDirectory", "GetWorkspaceRootDir"} {
 		if f := c.P.Func("config", "WorkspaceConfig", n); f != nil {
@@ -324,10 +328,21 @@ func ruleR07b(c *Check) {
 		}
 		n++
 		ok2, why := allowed(s.Parent())
-		c.Require(ok2, "R07b", "cache-dir-owner/"+siteKey(c, s), "mutation under the grog root by its owner: "+why, "a file under the grog root / cache directory is created, renamed or removed outside the fs backend: cache entries could appear without the temp-file + rename protocol", c.P.InstrPos(s))
+		c.Require(ok2, rule, "cache-dir-owner/"+siteKey(c, s), "mutation under the grog root by its owner: "+why, "a file under the grog root / cache directory is created, renamed or removed outside the fs backend: cache entries could appear without the temp-file + rename protocol", c.P.InstrPos(s))
 	}
 	if n == 0 {
-		c.Unknown("R07b", "cache-dir-owner", "no mutation under the grog root found at all: the provenance anchor lost its subject", "-")
+		c.Unknown(rule, "cache-dir-owner", "no mutation under the grog root found at all: the provenance anchor lost its subject", "-")
+	}
+	// cache entries are never aliased into the workspace: a hard link (or symlink) whose source lies in the
+	// cache directory lets a later command rewrite the blob in place under its old digest
+	for _, s := range c.G.CallsTo("os.Link", "os.Symlink") {
+		if len(s.Common().Args) < 2 || !fwd.Has(s.Common().Args[0]) {
+			continue
+		}
+		if ok, _ := allowed(s.Parent()); ok {
+			continue
+		}
+		c.Bad(rule, "cache-entry-not-aliased/"+siteKey(c, s), "a path inside the cache directory is linked into the workspace: the restored file shares its storage with the cache entry, so a command that rewrites its output in place changes the blob stored under the old digest (later restores of that digest return the wrong bytes)", c.P.InstrPos(s))
 	}
 }
 
@@ -479,8 +494,8 @@ func recordPaired(c *Check, digestRead, pathRead ssa.Value, hashers map[*ssa.Fun
 }
 
 // R07e: memo soundness
-func ruleR07e(c *Check) {
-	c.Rule("R07e", "the CAS 'digest exists' memo is written only after backend.Set returned nil or backend.Exists answered (true, nil)", 2)
+func ruleR07e(c *Check, rule string) {
+	c.Rule(rule, "the CAS 'digest exists' memo is written only after backend.Set returned nil or backend.Exists answered (true, nil)", 2)
 	// the memo: the sync.Map field(s) of caching.Cas (located by type, not by name)
 	memos := map[engine.FieldKey]bool{}
 	if t := c.P.Type("caching", "Cas"); t != nil {
@@ -538,7 +553,7 @@ func ruleR07e(c *Check) {
 				}
 			}
 		}
-		c.Require(okAny, "R07e", key, "the memo is set only after a successful Set / a positive Exists", "a digest is remembered as present before (or without) the backend write having succeeded: a failed or still-running upload makes every later write of that digest a silent no-op, so a result can reference a blob that was never stored", c.P.InstrPos(s))
+		c.Require(okAny, rule, key, "the memo is set only after a successful Set / a positive Exists", "a digest is remembered as present before (or without) the backend write having succeeded: a failed or still-running upload makes every later write of that digest a silent no-op, so a result can reference a blob that was never stored", c.P.InstrPos(s))
 	}
 	for _, s := range c.G.Sites {
 		name := engine.CalleeName(s)
@@ -552,7 +567,7 @@ func ruleR07e(c *Check) {
 		check(s, 0)
 	}
 	if n == 0 {
-		c.Unknown("R07e", "memo-after-success", "no writes to the exists-memo found", "-")
+		c.Unknown(rule, "memo-after-success", "no writes to the exists-memo found", "-")
 	}
 }
 
